@@ -10,7 +10,11 @@ RULE = ('case idx -> protection mode (10 suites) x version x kind {5 plain sessi
         'on the wire (also sampled under a deleted echo); rewritten echo => client never ready; every record <= 16384, <= negotiated length, '
         '<= the requested length even without echo, <= the sender\'s own buffer-derived limit, wire length <= output buffer; forged conformant '
         'records with exactly the advertised plaintext length (CBC with 255 padding bytes) and the largest record that fits the input buffer are '
-        'accepted and delivered, a record just beyond the input buffer gives an error (ASan armed). distinct = (mode, version, client layout/limit, '
+        'accepted and delivered, a record just beyond the input buffer gives an error (ASan armed). tiny (h_tinybuf): both roles x every layout x '
+        'buffer sizes from 0 bytes through every threshold +-1 up to just above the minimum (512+325 in, 512+85 out; 1434 for the engine-split '
+        'buffer), exact-size heap blocks: a refused configuration must be visibly refused (reset 0 / CLOSED with an error) and stay so, an '
+        'accepted one must complete a handshake and exchange data exactly, the minimum itself must be accepted; every offered region is '
+        'checked against the caller block after each call. distinct = (mode, version, client layout/limit, '
         'server layout/limit, echoed code) tuples.')
 ASSUMPTIONS = [
     'for the engine-split single buffer the caller cannot know the split point, so exact-fit checks use the shared and two-buffer layouts',
@@ -18,14 +22,15 @@ ASSUMPTIONS = [
     'OpenSSL EVP trusted for measuring and forging records',
 ]
 EVAL = ['cases']
-DISTINCT = ['config']
+DISTINCT = ['config', 'tiny_outcome']
 REQUIRED = ['cases', 'sessions_completed', 'sessions_with_mfl', 'sessions_without_mfl', 'cmp_client_request', 'cmp_negotiated_flag',
             'records_measured', 'forged_max_records', 'forged_fit_records', 'forged_oversize_records', 'mitm_rewrite_applied',
-            'mitm_delete_applied', 'server_used_full_fragment']
+            'mitm_delete_applied', 'server_used_full_fragment', 'tiny_refused', 'tiny_streams_exact']
 NW = 16
 
 
 def jobs(tier, seed):
     n = 1920 if tier == 'quick' else 48000
     return [Job('z%d' % i, 'h_tls16', ['--seed', seed, '--worker', i, '--nworkers', NW, '--cases', n],
-                libs=['-lcrypto'], timeout=900 if tier == 'quick' else 7200) for i in range(NW)]
+                libs=['-lcrypto'], timeout=900 if tier == 'quick' else 7200) for i in range(NW)] + \
+           [Job('tiny%d' % i, 'h_tinybuf', ['--seed', seed, '--worker', i, '--nworkers', 4], libs=['-lcrypto'], timeout=900) for i in range(4)]
